@@ -664,6 +664,30 @@ def o_par_text(ctx):
                     except Exception:  # noqa: BLE001
                         continue
                     last = -1
+                    # exactly once: no source paragraph is pointed at by two records, and records
+                    # detached from the tree (copies made for merged cells) exist only where the
+                    # part has merged cells
+                    seen_elems = set()
+                    w_ns = root.nsmap.get("w")
+                    has_merge = False
+                    if w_ns:
+                        for tcpr in root.iter(f"{{{w_ns}}}tcPr"):
+                            gs = tcpr.find(f"{{{w_ns}}}gridSpan")
+                            if tcpr.find(f"{{{w_ns}}}vMerge") is not None or (
+                                    gs is not None and (gs.get(f"{{{w_ns}}}val") or "1") != "1"):
+                                has_merge = True
+                                break
+                    for p in pars:
+                        if p.elem is None:
+                            continue
+                        if id(p.elem) in order:
+                            if id(p.elem) in seen_elems and ptag(p.elem) == "w:p":
+                                out.append(("par_once", f"{f.path}: a source paragraph is extracted twice: {''.join(p.run_strings)[:60]!r}"))
+                                return out
+                            seen_elems.add(id(p.elem))
+                        elif not has_merge:
+                            out.append(("par_once", f"{f.path}: a copied paragraph record in a part without merged cells: {''.join(p.run_strings)[:60]!r} (dup={dup})"))
+                            return out
                     for p in pars:
                         if p.elem is None or id(p.elem) not in order or ptag(p.elem) != "w:p":
                             continue
